@@ -3,6 +3,9 @@ package main
 import (
 	"fmt"
 	"go/types"
+	"strings"
+
+	"golang.org/x/tools/go/ssa"
 )
 
 // Allocation model: a ghost counter NEXT (part of the state). Every reference that exists is in
@@ -154,4 +157,79 @@ func (c *FnCtx) mapCountFact(mt *types.Map, oldHas, oldVal, newHas, newVal, k Te
 	}
 	c.define(Term{fmt.Sprintf("(forall ((cv! %s)) (! (and (= %s (+ (- %s %s) %s)) (>= %s 0) (>= %s 0)) :pattern (%s) :pattern (%s)))",
 		vs, newC.S, oldC.S, minus.S, plus.S, oldC.S, newC.S, newC.S, oldC.S), SBool})
+}
+
+// Packages whose functions do not write through the pointers they are given (formatting, logging,
+// error construction, clocks, contexts, metrics): calls into them leave the verified state untouched.
+var readOnlyCalleePrefixes = []string{
+	"fmt.", "(fmt.", "errors.", "strings.", "(strings.", "strconv.", "time.", "(time.", "(*time.", "math.", "context.", "(context.",
+	"(*go.uber.org/zap.", "go.uber.org/zap", "(*github.com/ipfs/go-log", "github.com/ipfs/go-log", "go.opentelemetry.io", "(go.opentelemetry.io",
+	"(*go.opentelemetry.io", "bytes.", "encoding/json.Marshal", "(*sync.", "(*sync/atomic.", "encoding/hex.", "(*github.com/celestiaorg/celestia-node/das.metrics)",
+	"(*github.com/celestiaorg/celestia-node/pruner.metrics)", "(*github.com/celestiaorg/celestia-node/share/shwap/p2p/shrex/peers.metrics)",
+	"(*github.com/celestiaorg/celestia-node/share/shwap/p2p/shrex.Metrics)",
+}
+
+// havocPointerArgs: an unmodelled callee may write through every pointer it receives (directly or
+// boxed in an interface): those pointees become arbitrary. Callees from read-only packages are exempt.
+func (c *FnCtx) havocPointerArgs(name string, common *ssa.CallCommon, st *State) {
+	for _, p := range readOnlyCalleePrefixes {
+		if strings.HasPrefix(name, p) {
+			return
+		}
+	}
+	for _, a := range common.Args {
+		v := a
+		if mi, ok := a.(*ssa.MakeInterface); ok {
+			v = mi.X
+		}
+		pt, ok := v.Type().Underlying().(*types.Pointer)
+		if !ok {
+			continue
+		}
+		if _, isStruct := pt.Elem().Underlying().(*types.Struct); !isStruct {
+			if _, isArr := pt.Elem().Underlying().(*types.Array); isArr {
+				continue
+			}
+		}
+		r := c.val(v)
+		if r.kind != vTerm {
+			// interior pointer / local: the addressed location becomes arbitrary
+			if r.kind == vAddr {
+				c.storeTo(st, r.addr, c.freshTyped("hv_arg", r.addr.typ))
+			}
+			continue
+		}
+		c.g.note("unmodelled callee %s may write through its pointer arguments: pointees made arbitrary", name)
+		c.havocTarget(st, TV{r.t, v.Type()})
+	}
+}
+
+// externalType: a named struct type declared outside the repository's module (or one of its metrics
+// holders, which only feed observability).
+func (g *Gen) externalType(t types.Type) bool {
+	n, ok := types.Unalias(t).(*types.Named)
+	if !ok {
+		if p, isPtr := types.Unalias(t).(*types.Pointer); isPtr {
+			return g.externalType(p.Elem())
+		}
+		return false
+	}
+	if n.Obj().Pkg() == nil {
+		return false
+	}
+	if n.Obj().Name() == "metrics" || n.Obj().Name() == "Metrics" {
+		return true
+	}
+	return !strings.HasPrefix(n.Obj().Pkg().Path(), "github.com/celestiaorg/celestia-node")
+}
+
+// bytesOfString: []byte(s). The copy is identified by the string (an uninterpreted base per string
+// value), so that specs can name it as bytesOf(s); two conversions of the same string share the base
+// (they are never both mutated in the code under contract).
+func (g *Gen) bytesOfString(c *FnCtx, s Term) Term {
+	g.u.declareFun("str2bytes", []Sort{SInt}, SInt)
+	base := mk(SInt, "str2bytes", s)
+	c.define(gt(base, tZero))
+	g.note("[]byte(string) conversions are identified by the string value")
+	return mkSlice(base, tZero, mk(SInt, "strlen", s), mk(SInt, "strlen", s))
 }
